@@ -508,7 +508,8 @@ CHECK = {
                 "state, from any solver state ready for the estimate size, each estimate_ IS p2p_find_corr / p2p_find_aligned, the functions the "
                 "theorems are about (C05_source_tie_estimate); find = estimate_ (on get() for the preconditioned overloads), constructor = p2p_new, "
                 "setPreconditioner = p2p_set_preconditioner with the scale of the TARGET set. Corollary: the residual identity holds of the "
-                "coefficients the generated loops write (C05_source_tie_residual_identity_2d/_3d). "
+                "coefficients the generated loops write (C05_source_tie_residual_identity_2d/_3d), and the normal-equations-and-unique-minimiser claim holds of what each generated "
+                "estimate_ returns on the LsModel state (C05_source_tie_normal_equations_and_minimiser). "
                 "THEOREMS about the model: residual identity row.x - y = n.((I+[w]x)s + tau - t), the returned "
                 "parameters satisfy the normal equations of the linearised problem and minimise its cost, pure translations are "
                 "recovered exactly when the design matrix has full rank, preconditioning invariance; the O(theta^2) rotation error is proved: "
